@@ -167,6 +167,20 @@ def realise(case, seed=0):
         form = f * inner(u, v) * d1 + g * inner(grad(u), grad(v)) * d2 + inner(u, v) * d1
     elif term == "hess":
         form = inner(grad(grad(u)), grad(grad(v))) * dX
+    elif term in ("mathfn", "mathfn2", "cmathfn", "bessel"):
+        # one transcendental factor per product, so that the dyadic function tables of the oracle stay small
+        F, G = ufl.Coefficient(V), coef("P1")
+        K = ufl.Constant(dom)
+        fam = {"mathfn": [ufl.sin(F), ufl.exp(G / 4), ufl.cos(x[0]), ufl.ln(2 + F * F), ufl.atan(K * F), ufl.tanh(G),
+                          ufl.cosh(F / 2), ufl.sinh(K / 2), ufl.tan(F / 8)],
+               "mathfn2": [ufl.erf(F), ufl.atan2(F, 1 + G * G), (2 + F * F) ** 1.5, ufl.acos(F / 4),
+                           ufl.asin(G / 4), ufl.sqrt(1 + F * F)],
+               "bessel": [ufl.bessel_J(1, F), ufl.bessel_Y(0, 1 + G * G), ufl.bessel_J(0, G / 2)],
+               "cmathfn": [ufl.exp(F / 4), ufl.sin(G), ufl.cos(K), ufl.sqrt(F), ufl.ln(4 + G), ufl.sinh(F / 2),
+                           ufl.tan(G / 8), ufl.cosh(K / 2), ufl.tanh(F / 4)]}[term]
+        rnd.shuffle(fam)
+        pick = fam[:3]
+        form = sum((k + 1) * f_ for k, f_ in enumerate(pick)) * inner(u, v) * dX
     elif term == "cplx":
         F, G = ufl.Coefficient(V), coef("P1")
         K = ufl.Constant(dom)
